@@ -20,6 +20,8 @@ list subclass for `_message_buffer`, overrides that only log):
   Q<id>:<seq>        buffered by the buffer_messages task            X<id> rejected (invalid state)
   K<id> / F<id>      head of the channel answered ok / failed         Z<id> in-flight send cancelled
   T<st>              `_state` assigned   G<n> batch taken (buffer copy+clear)
+  (Q = `_buffer_message` called outside any `_post_async`; Us/Ub by the coroutine's code object — task name
+   strings are not looked at)
   W<id>[!]           the failure handler of message id (0: not a handler) starts waiting for the cancelled
                      state task to end ("!": the state task waits for itself)
   Us / Ub / U0[!]    `_state_task` := steady-state task / buffer task / None ("!": cleared by the state task itself)
@@ -76,16 +78,20 @@ class Choices:
     """Choice source: the prefix, then (if `rnd` is given) random non-default choices with per-tag
     probability, else 0.  `values` replays the whole run when given as prefix."""
 
-    def __init__(self, prefix: list[int], rnd=None, probs: dict | None = None):
+    def __init__(self, prefix: list[int], rnd=None, probs: dict | None = None, policy=None):
         self.prefix = list(prefix)
         self.rnd = rnd
+        self.policy = policy      # callable(tag, n, index) -> int | None : directed schedules
         self.probs = dict(DEFAULT_PROBS, **(probs or {}))
         self.log: list[tuple[str, int, int]] = []   # (tag, domain, value)
 
     def pick(self, tag: str, n: int) -> int:
         i = len(self.log)
+        pv = self.policy(tag, n, i) if self.policy is not None and i >= len(self.prefix) else None
         if i < len(self.prefix):
             v = self.prefix[i]
+        elif pv is not None:
+            v = pv
         elif self.rnd is not None and n > 1 and self.rnd.random() < self.probs.get(tag, 0.0):
             v = self.rnd.randrange(1, n) if tag != "evd" else self.rnd.randrange(0, n)
         else:
@@ -127,6 +133,10 @@ class Result:
     seq_ctr: int = 0                                     # dispatcher._sequence_number at the end
     limbo: list[int] = field(default_factory=list)       # failed, handler has not buffered them (yet / ever)
     faults: int = 0
+    stuck_ids: list[int] = field(default_factory=list)   # their handler waits for a state task that cleared itself
+    cancelled_after_fail: list[int] = field(default_factory=list)
+    q_in_rd: list[int] = field(default_factory=list)     # appended to the buffer by a buffer task while Reconnected
+    orphans: int = 0                                     # buffer tasks dropped from _state_task alive (ever)
 
 
 class _LogBuf(list):
@@ -143,10 +153,15 @@ class _LogBuf(list):
 class Sim:
     def __init__(self, script: list[tuple], prefix: list[int], mode: str = "conn", horizon: float = 40.0,
                  ev_window: int = 40, max_faults: int = 99, rnd=None, probs: dict | None = None,
-                 early_events: bool = False, min_time: float = 0.0, fault_until: float = 1e9):
+                 early_events: bool = False, min_time: float = 0.0, fault_until: float = 1e9, policy=None):
         self.script = list(script)
+        self.orphan_tasks: list[Any] = []       # buffer tasks dropped from `_state_task` while alive and not cancelled
+        self.q_in_rd: list[int] = []            # ids appended by a buffer task while the state was Reconnected
+        self.waiting_on: dict[Any, list[int]] = {}
+        self.stuck_ids: list[int] = []          # handlers waiting for a state task that cleared itself
+        self.cancelled_after_fail: list[int] = []
         self.min_time = min_time
-        self.ch = Choices(prefix, rnd, probs)
+        self.ch = Choices(prefix, rnd, probs, (lambda t, n, i: policy(t, n, i, self)) if policy else None)
         self.early_events = early_events
         self.acked: list[int] = []
         self.cancelled_ids: list[int] = []
@@ -281,7 +296,9 @@ class Sim:
                              seqs={k: list(v) for k, v in self.seqs.items()},
                              iterations=loop.iteration, acked=list(self.acked), cancelled=list(self.cancelled_ids),
                              rejected=list(self.rejected_ids), seq_ctr=self.disp._sequence_number,
-                             limbo=sorted(self.failed_open), faults=self.faults)
+                             limbo=sorted(self.failed_open), faults=self.faults, stuck_ids=list(self.stuck_ids),
+                             cancelled_after_fail=list(self.cancelled_after_fail), q_in_rd=list(self.q_in_rd),
+                             orphans=len(self.orphan_tasks))
         self.frozen = True   # what happens during teardown (cancelling every task) is not part of the run
 
     def _iteration_hook(self):
@@ -290,7 +307,12 @@ class Sim:
             return
         if r._state == "Reconnected" and len(r._message_buffer) > 0:
             if not self.stranded or self.stranded[-1]["ids"] != [self.mid(m) for m in r._message_buffer]:
-                self.stranded.append({"t": self.loop.time(), "ids": [self.mid(m) for m in r._message_buffer]})
+                self.stranded.append({"t": self.loop.time(), "ids": [self.mid(m) for m in r._message_buffer],
+                                      "live_orphans": sum(1 for t in self.orphan_tasks if not t.done())})
+        while self._script_pos < len(self.script) and self.script[self._script_pos][0] == "await":
+            if r._state != self.script[self._script_pos][1]:      # hold the script until the runner is in that state
+                return
+            self._script_pos += 1
         if self._script_pos < len(self.script) and (self.first_steady or self.early_events):
             # an engine event arrives (call_soon_threadsafe from the engine thread) at a loop-iteration boundary;
             # which one: `evd` = number of further iterations-with-runner-activity to let pass first
@@ -326,11 +348,26 @@ class Sim:
             self.errors.append(f"inject:{type(e).__name__}:{e}")
 
 
+def _task_role(runner, task) -> str:
+    """'b' = the buffer_messages loop, 's' = the steady-state loop — by the coroutine's code object, not by the
+    task's name string (a renamed task is still the same role)."""
+    try:
+        code = task.get_coro().cr_code
+        cls = type(runner).__mro__[1]
+        if code is cls.buffer_messages.__code__:
+            return "b"
+        if code is cls.steady_state_send_messages.__code__:
+            return "s"
+    except Exception:
+        pass
+    return "b" if "buffer" in task.get_name() else "s"
+
+
 class _TaskProxy:
     """Stands for `_state_task`; logs when a coroutine starts waiting for the task to finish."""
 
-    def __init__(self, sim, task):
-        self.sim, self.task = sim, task
+    def __init__(self, sim, task, role="s"):
+        self.sim, self.task, self.role = sim, task, role
 
     def get_name(self):
         return self.task.get_name()
@@ -351,6 +388,8 @@ class _TaskProxy:
         cur = asyncio.current_task()
         if not self.task.done():
             who = self.sim.handler_of.get(cur, 0)
+            if who and cur is not self.task:
+                self.sim.waiting_on.setdefault(self.task, []).append(who)
             self.sim.log(f"W{who}" + ("!" if cur is self.task else ""))
         return (yield from self.task.__await__())
 
@@ -556,6 +595,7 @@ def _dispatcher_class():
                     raise      # already answered ok: the message is delivered, only the waiting task dies
                 else:
                     sim.attempts[entry["att"]]["outcome"] += ":cancelled-after"
+                    sim.cancelled_after_fail.append(i)
                     if i in sim.failed_open:
                         sim.failed_open.remove(i)
                 sim.cancelled_ids.append(i)
@@ -626,14 +666,16 @@ def _runner_class():
         def _buffer_message(self, message):
             sim = self._sim
             super()._buffer_message(message)
-            caller = sys._getframe(1).f_code.co_name
+            direct = asyncio.current_task() not in sim.handler_of    # not inside a _post_async call: a buffer task
             i = sim.mid(message)
             seq = sim.note_seq(message)
             if i not in sim.buffered_ids:
                 sim.buffered_ids.append(i)
             if i in sim.failed_open:
                 sim.failed_open.remove(i)
-            sim.log(("Q" if caller == "buffer_messages" else "B") + f"{i}:{seq}")
+            if direct and self._state == "Reconnected":
+                sim.q_in_rd.append(i)
+            sim.log(("Q" if direct else "B") + f"{i}:{seq}")
 
         @property
         def _state_task(self):
@@ -643,14 +685,20 @@ def _runner_class():
         def _state_task(self, task):
             sim = self.__dict__["_sim"]
             old = self.__dict__.get("_stask")
+            if old is not None and old.role == "b" and not old.task.done() and old.task.cancelling() == 0 \
+                    and (task is None or task is not old.task):
+                sim.orphan_tasks.append(old.task)       # nothing refers to it any more and nobody cancelled it
             if task is None:
                 if "_stask" in self.__dict__:       # not the initial assignment in __init__
                     me = old is not None and asyncio.current_task() is old.task
+                    if me:
+                        sim.stuck_ids.extend(sim.waiting_on.get(old.task, []))
                     sim.log("U0" + ("!" if me else ""))
                 self.__dict__["_stask"] = None
             else:
-                sim.log("Ub" if task.get_name().endswith("buffer_messages") else "Us")
-                self.__dict__["_stask"] = _TaskProxy(sim, task)
+                role = _task_role(self, task)
+                sim.log("Ub" if role == "b" else "Us")
+                self.__dict__["_stask"] = _TaskProxy(sim, task, role)
 
         async def _post_async(self, message, *args, **kw):
             sim = self._sim
